@@ -1,1 +1,122 @@
-(* C10 stub: to be written *)
+(* C10: nesting / '*' grouping (flatten_sequence, MultiOperator) and '@' combination
+   (scalar_combine / matrix_combine) on the generic 1-D model. *)
+From Coq Require Import List ZArith QArith Lia Bool Arith.
+From EPG Require Import Scalar State Ops Diff.
+Import ListNotations.
+
+Section Combine.
+Variable S : ScalOps.
+Notation triple := (triple S).
+Notation mat3 := (mat3 S).
+Notation sm := (sm S).
+
+(* ---- nested sequences: lists within lists, MultiOperators ('*' grouping) ---- *)
+Inductive seqtree : Type :=
+| Leaf (o : op S) (duration : Q) (nshift : nat) (shape : list nat)
+| Node (items : list seqtree)          (* a (nested) Python list *)
+| Multi (items : list seqtree).        (* a MultiOperator: '*' flattens nested MultiOperators on append *)
+
+Fixpoint flatten (t : seqtree) : list (op S) :=
+  match t with
+  | Leaf o _ _ _ => [o]
+  | Node l => flat_map flatten l
+  | Multi l => flat_map flatten l
+  end.
+
+(* applying a nested structure directly: lists are iterated, a MultiOperator applies its members in order *)
+Fixpoint run_tree (t : seqtree) (s : sm) : sm :=
+  match t with
+  | Leaf o _ _ _ => apply o s
+  | Node l => fold_left (fun s t' => run_tree t' s) l s
+  | Multi l => fold_left (fun s t' => run_tree t' s) l s
+  end.
+
+Fixpoint tree_duration (t : seqtree) : Q :=
+  match t with
+  | Leaf _ d _ _ => d
+  | Node l => fold_left (fun a t' => (a + tree_duration t')%Q) l 0%Q
+  | Multi l => fold_left (fun a t' => (a + tree_duration t')%Q) l 0%Q
+  end.
+Fixpoint tree_nshift (t : seqtree) : nat :=
+  match t with
+  | Leaf _ _ n _ => n
+  | Node l => fold_left (fun a t' => a + tree_nshift t')%nat l 0%nat
+  | Multi l => fold_left (fun a t' => a + tree_nshift t')%nat l 0%nat
+  end.
+Fixpoint leaves (t : seqtree) : list (Q * nat) :=
+  match t with
+  | Leaf _ d n _ => [(d, n)]
+  | Node l => flat_map leaves l
+  | Multi l => flat_map leaves l
+  end.
+
+(* ---- '@' : one operator equivalent to op1 then op2 ---- *)
+Definition omat (f : mat3 -> mat3) (o : option mat3) : option mat3 :=
+  match o with Some a => Some (f a) | None => None end.
+
+(* matrix_combine(mat1, mat2, mat01, mat02): mat = mat2 mat1; mat0 = mat2 mat01 (+ mat02) *)
+Definition matrix_combine (m1 : mat3) (m01 : option mat3) (m2 : mat3) (m02 : option mat3) : mat3 * option mat3 :=
+  (mmul m2 m1,
+   match m01, m02 with
+   | None, None => None
+   | None, Some b => Some b
+   | Some a, None => Some (mmul m2 a)
+   | Some a, Some b => Some (madd (mmul m2 a) b)
+   end).
+
+(* scalar_combine: element-wise *)
+Definition scalar_combine (a1 : triple) (a01 : option triple) (a2 : triple) (a02 : option triple) : triple * option triple :=
+  (sv a2 a1,
+   match a01, a02 with
+   | None, None => None
+   | None, Some b => Some b
+   | Some a, None => Some (sv a2 a)
+   | Some a, Some b => Some (tadd (sv a2 a) b)
+   end).
+
+(* ScalarOp.mat / mat0 (as_matrix): diagonal matrices, used when a ScalarOp meets a MatrixOp *)
+Definition as_mat (l : lin S) : option (mat3 * option mat3) :=
+  match l with
+  | LScalar a a0 => Some (mdiag a, match a0 with Some b => Some (mdiag b) | None => None end)
+  | LMatrix m m0 => Some (m, m0)
+  | LShift _ _ => None
+  end.
+
+(* op1 @ op2 : ScalarOp with ScalarOp stays scalar; anything involving a MatrixOp becomes a MatrixOp;
+   shifts are not combinable *)
+Definition combine_lin (l1 l2 : lin S) : option (lin S) :=
+  match l1, l2 with
+  | LScalar a1 a01, LScalar a2 a02 =>
+      let r := scalar_combine a1 a01 a2 a02 in Some (LScalar (fst r) (snd r))
+  | _, _ =>
+      match as_mat l1, as_mat l2 with
+      | Some (m1, m01), Some (m2, m02) =>
+          let r := matrix_combine m1 m01 m2 m02 in Some (LMatrix (fst r) (snd r))
+      | _, _ => None
+      end
+  end.
+
+(* executable comparison of operator arrays (correspondence) *)
+Definition meqb (a b : mat3) : bool := teqb (row0 a) (row0 b) && teqb (row1 a) (row1 b) && teqb (row2 a) (row2 b).
+Definition oeqb {A} (f : A -> A -> bool) (x y : option A) : bool :=
+  match x, y with Some a, Some b => f a b | None, None => true | _, _ => false end.
+Definition lin_eqb (a b : lin S) : bool :=
+  match a, b with
+  | LScalar x x0, LScalar y y0 => teqb x y && oeqb teqb x0 y0
+  | LMatrix x x0, LMatrix y y0 => meqb x y && oeqb meqb x0 y0
+  | _, _ => false
+  end.
+(* left-associated chain l1 @ l2 @ ... *)
+Fixpoint combine_chain (acc : lin S) (ls : list (lin S)) : option (lin S) :=
+  match ls with
+  | [] => Some acc
+  | l :: r => match combine_lin acc l with Some c => combine_chain c r | None => None end
+  end.
+Definition chain_ok (l1 : lin S) (ls : list (lin S)) (obs : lin S) : bool :=
+  match combine_chain l1 ls with Some c => lin_eqb c obs | None => false end.
+
+End Combine.
+
+Arguments Leaf {S}. Arguments Node {S}. Arguments Multi {S}.
+Arguments flatten {S}. Arguments run_tree {S}. Arguments combine_lin {S}.
+Arguments matrix_combine {S}. Arguments scalar_combine {S}. Arguments chain_ok {S}. Arguments lin_eqb {S}. Arguments combine_chain {S}.
